@@ -205,11 +205,16 @@ class PtrTimeline:
                         lst[-1][1] = t
         return tl
 
-    def present_in(self, alias, a, b, eps=2e-6):
-        """Was the record present (unexpired) at some instant in [a, b - eps)?"""
+    def present_in(self, alias, a, b, eps=2e-6, zero_ok=False):
+        """Was the record present (unexpired) at some instant in [a, b - eps)?
+
+        A record added and withdrawn at one clock value may or may not have been visible to a task in between (same or
+        different loop iteration): zero_ok says which way the caller wants that doubt resolved."""
         for s, e in self.iv.get(alias.lower(), []):
             if e <= s:
-                continue  # added and withdrawn within one instant: never visible to a task
+                if zero_ok and a - 1e-9 <= s < b:
+                    return True
+                continue
             if s < b - eps and e > a:
                 return True
         return False
@@ -278,7 +283,7 @@ def _oracle(w, drv, sc, hm, stats, out):
                 if allow:
                     out.add("C09.raised-despite-rename", f"NonUniqueNameException although allow_name_change was set "
                             f"(name {cur})")
-                if not tl.present_in(cur, t_call - 1e-6, t_done + 1e-6, eps=0) and cur not in final_names:
+                if not tl.present_in(cur, t_call - 1e-6, t_done + 1e-6, eps=0, zero_ok=True) and cur not in final_names:
                     out.add("C09.spurious-conflict", f"registration of {cur} failed with NonUniqueNameException at "
                             f"{t_done - t0:.6f} but no PTR for that name was in the cache during the registration")
             elif e["exc"] == "ServiceNameAlreadyRegistered":
@@ -329,7 +334,7 @@ def _oracle(w, drv, sc, hm, stats, out):
                     f"{t_last_probe - t0:.6f}", renamed=final != orig)
         # every skipped name must have been taken when it was skipped
         for nm in chain[:-1]:
-            if not tl.present_in(nm, t_call - 1e-6, s0 + 1e-6, eps=0):
+            if not tl.present_in(nm, t_call - 1e-6, s0 + 1e-6, eps=0, zero_ok=True):
                 out.add("C09.not-first-free", f"{nm} was skipped for {final} but no PTR for it was in the cache before the "
                         f"first probe of {final} at {s0 - t0:.6f}")
         # announcements
